@@ -6,6 +6,7 @@ INVARIANT NoForbiddenRuns
 INVARIANT ValidateBeforeRun
 INVARIANT RanOnlyWhenDone
 INVARIANT Narrowing
+INVARIANT ArgumentRespected
 INVARIANT RejectJustified
 INVARIANT OutcomeInVerdict
 INVARIANT AllowedEventuallyRuns
